@@ -23,7 +23,7 @@ def plan(tier):
     if tier == "quick":
         specs = [([("dense", 1, 5)], MENU_DENSE_Q), ([("bounded", 3, 6, 8)], MENU_BOUNDED_Q),
                  ([("near", 2, 3)], MENU_BOUNDED_Q + [(2.0 ** -30, 0.0), (None, 2.0 ** -28)]),
-                 ([("far", 1, 4)], MENU_BOUNDED_Q)]
+                 ([("far", 1, 4)], MENU_BOUNDED_Q), ([("tiny", 2, 3)], MENU_BOUNDED_Q[:2])]
     else:
         specs = [([("dense", 1, 6)], MENU_T), ([("dense", 7, 7)], MENU_DENSE_Q),
                  ([("bounded", 3, 8, 10)], MENU_DENSE_Q + MENU_BOUNDED_Q[2:]),
